@@ -6,6 +6,7 @@ import (
 
 	"verifmc/evid"
 	"verifmc/explore"
+	"verifmc/netrows"
 	"verifmc/sc/c01"
 	"verifmc/stacks"
 )
@@ -22,6 +23,10 @@ func main() {
 	_ = stacks.Kinds
 	explore.Main(run, scs, evid.Pick(run, 160*time.Second, 18*time.Minute))
 	run.Set("preemption_bound", pb)
-	run.Assume("payload contents are self-describing patterns; UDP/QUIC/SSH stacks are outside the scheduler")
+	run.Assume("payload contents are self-describing patterns; udpswarm runs over the virtual network")
+	// free-running rows for sshswarm / quicswarm (outside the controlled scheduler)
+	if netrows.Run(run) {
+		run.Assume("sshswarm and quicswarm rows run free on loopback: every listed (length, direction, senders) case is executed once under the runtime's own schedule; waits of 30 s only give up")
+	}
 	run.Finish()
 }
